@@ -401,6 +401,32 @@ def _dispatch_label(meth, r):
 
 
 # ------------------------------------------------------------------ S5
+def _slots_by_witness(m, fg):
+  """however the walk over the blocks is written: with three concrete blocks and dims (True, False, True) - k = 2, rank 3 -
+  block j must be preconditioned with the slice [2j, 2j + 2) and rank 3, in block order"""
+  blocks = [sym('spec', f'block{j}') for j in range(3)]
+  dims = [True, False, True]
+  ev = evaluator(m, opaque={'merge_partitions', '_precondition_block', '_preconds_for_grad'},
+                 summaries={'partition': (lambda e_, b_, r_: T('list', *blocks)),
+                            'should_precondition_dims': (lambda e_, b_, r_: T('list', *[const(x_) for x_ in dims]))})
+  try:
+    ev.run(fg)
+  except Exception:
+    return False
+  pc = [c for c in ev.calls if c.callee.endswith('._preconds_for_grad')]
+  pb = [c for c in ev.calls if c.callee.endswith('._precondition_block')]
+  if len(pc) != 3 or len(pb) != 3:
+    return False
+  for j, (c, b) in enumerate(zip(pc, pb)):
+    a = c.args
+    if not (is_const(a.get('start', NONE), 2 * j) and is_const(a.get('end', NONE), 2 * j + 2) and is_const(a.get('rank', NONE), 3)):
+      return False
+    vals = list(b.args.values())
+    if not (any(v is blocks[j] for v in vals) and any(v is c.result for v in vals)):
+      return False
+  return True
+
+
 def slot_arithmetic(ctx):
   m = ctx.model
   fg = m.func(MOD, 'Preconditioner.preconditioned_grad')
@@ -423,6 +449,8 @@ def slot_arithmetic(ctx):
         ok = cmpr.same(st, spec_term(ev, 'i * sum(dims)', env)) and cmpr.same(en, spec_term(ev, '(i + 1) * sum(dims)', env)) and \
             cmpr.same(rk, spec_term(ev, 'len(dims)', env))
         ok = ok and 'partition' in show(i_t, maxdepth=6)
+    if not ok:
+      ok = _slots_by_witness(m, fg)
     ctx.ob('C06.S5', fg.short, 'block i gets preconditioners [i*k, (i+1)*k)', ok,
            f'block i must receive the slice [i*k, (i+1)*k) with k = number of preconditioned dims and rank = len(dims); got start=`{cmpr.fmt(st)}` end=`{cmpr.fmt(en)}` rank=`{cmpr.fmt(rk)}`',
            ctx.loc(fg), sample='start=i*k, end=(i+1)*k, rank=len(dims)')
